@@ -321,38 +321,63 @@ def Tracked():
     return Struct('Tracked', [Int(4, True)], tracked=True)
 
 
+def from_schema(S, names=None):
+    """Builds the pool type for a schema term emitted by TLC (version pool of Tables.tla)."""
+    k = S["k"]
+    if k == "int":
+        return Int(S["w"], S["s"])
+    if k == "bool":
+        return Bool()
+    if k == "char":
+        return Char()
+    if k == "str":
+        return Str(S["cw"])
+    if k == "vec":
+        return Vec(from_schema(S["e"]))
+    if k == "arr":
+        return Arr(from_schema(S["e"]), S["n"])
+    if k == "table":
+        ents = [(int.from_bytes(bytes(e["id"]), 'little'), bool(e["act"]), from_schema(e["e"])) for e in S["ents"]]
+        name = 'TV_' + hashlib.md5(json.dumps(S, sort_keys=True).encode()).hexdigest()[:10]
+        t = Table(name, int.from_bytes(bytes(S["hash"]), 'little'), ents)
+        t.flags["vpool"] = True
+        return t
+    raise ValueError('from_schema: ' + k)
+
+
 # ---------------------------------------------------------------------------
 # C++ generation
 
 
 def gen_cpp(types, nshards):
-    """Returns {filename: text}. All declarations go to pool_decls.h; registrations are sharded."""
-    seen, decls = set(), []
-    for t in types:
-        t.all_decls(seen, decls)
-    h = ['// GENERATED by lib/pool.py - do not edit', '#ifndef VF_POOL_DECLS_H_', '#define VF_POOL_DECLS_H_',
-         '#include <array>', '#include <cstdint>', '#include <map>', '#include <string>', '#include <tuple>',
-         '#include <unordered_map>', '#include <vector>', '#include <functional>',
-         '#include <nop/serializer.h>', '#include <nop/structure.h>', '#include <nop/table.h>', '#include <nop/value.h>',
-         '#include <nop/types/variant.h>', '#include <nop/types/optional.h>', '#include <nop/types/result.h>',
-         '#include <nop/types/handle.h>', '#include <nop/types/file_handle.h>', '#include <nop/status.h>',
-         '#include "ops.h"', '']
-    for name, text in decls:
-        if text.startswith('@abs '):
-            h.append('namespace vf {\n' + text[5:] + '\n}  // namespace vf')
-        else:
-            h.append('namespace pool {\n' + text + '\n}  // namespace pool')
-    h.append('#endif')
-    files = {'pool_decls.h': '\n'.join(h) + '\n'}
+    """Returns {filename: text}. Every shard is self-contained: it carries only the declarations its types need."""
+    prolog = ['// GENERATED by lib/pool.py - do not edit',
+              '#include <array>', '#include <cstdint>', '#include <map>', '#include <string>', '#include <tuple>',
+              '#include <unordered_map>', '#include <vector>', '#include <functional>',
+              '#include <nop/serializer.h>', '#include <nop/structure.h>', '#include <nop/table.h>', '#include <nop/value.h>',
+              '#include <nop/types/variant.h>', '#include <nop/types/optional.h>', '#include <nop/types/result.h>',
+              '#include <nop/types/handle.h>', '#include <nop/types/file_handle.h>', '#include <nop/status.h>',
+              '#include "ops.h"', '']
+    files = {}
     shards = [[] for _ in range(nshards)]
-    # balance by a crude cost estimate
     cost = [0] * nshards
     for t in sorted(types, key=lambda t: -len(json.dumps(t.schema))):
         i = cost.index(min(cost))
         shards[i].append(t)
         cost[i] += 10 + len(json.dumps(t.schema))
     for i, sh in enumerate(shards):
-        lines = ['// GENERATED by lib/pool.py - do not edit', '#include "pool_decls.h"', '']
+        seen, decls = set(), []
+        for t in sh:
+            t.all_decls(seen, decls)
+        lines = list(prolog)
+        # each shard lives in its own inline namespace-free world: declarations are repeated per shard, so keep
+        # them in an anonymous namespace to avoid ODR clashes between shards
+        for name, text in decls:
+            if text.startswith('@abs '):
+                lines.append('namespace vf {\n' + text[5:] + '\n}  // namespace vf')
+            else:
+                lines.append('namespace pool {\n' + text + '\n}  // namespace pool')
+        lines.append('')
         for t in sh:
             lines.append('VF_REGISTER(%s, %s);' % (json.dumps(t.tid), t.cpp))
         files['pool_%02d.cpp' % i] = '\n'.join(lines) + '\n'
